@@ -142,6 +142,9 @@ def mutants_of(b, bc, codec, hexb, r, tier, targeted=True):
             yield 'extended by %d' % k, b + bytes([0x30 + k]) * k
         yield 'cut to header', b[:36 if hexb else 20]
         yield 'cut inside header', b[:11]
+        yield 'bare MTI', b[:4]
+        for k in (1, 8, 12, 15, 16):
+            yield 'MTI and %d bitmap bytes without element bits' % k, b[:4] + (b'0' * (2 * k) if hexb else bytes(k))
         yield 'empty', b''
     # multi-point mutations
     for _ in range(6 if tier == 'quick' else 40):
